@@ -48,6 +48,10 @@ func checkSAKeys(sa *security.IKESAKey, s bridge.SuiteSel, want ref.IKEKeys) err
 	if sa == nil {
 		return fmt.Errorf("no SA was returned although no error was reported")
 	}
+	// an application logs the SA it has just set up; looking at an SA does not change it
+	if err := probe.Try(func() error { _ = sa.String(); _ = fmt.Sprintf("%v %s", sa, sa); return nil }); err != nil {
+		return fmt.Errorf("printing the SA: %v", err)
+	}
 	for _, x := range []struct {
 		name      string
 		got, want []byte
